@@ -58,6 +58,7 @@ PROPS = {
             T("TestC04Config", "fleet", 50000, 8000000, shards=8),
             T("TestC04SweepThenLoad", "fleet", 1500, 160000, shards=16),
             T("TestC04LoopEnum", "fleet", 1, 1, enum=True, qshards=4, shards=8, procs=4),
+            T("TestC04ForeignMarker", "fleet", 1500, 160000, shards=16, qshards=2),
         ],
         "assumptions": [
             "sweeper clause for snapshots in the current format (version-1 snapshots carry no deleted flag)",
@@ -233,6 +234,9 @@ PROPS = {
             T("TestC17Climit", "conc", 400, 48000, shards=16, qshards=2, race=True, gomaxprocs=[4, 2, 1, 16]),
             T("TestC17Storage", "conc", 600, 48000, shards=8, qshards=2, race=True, gomaxprocs=[4, 2, 1, 16]),
             T("TestC17Instance", "conc", 240, 24000, shards=16, qshards=4, race=True, gomaxprocs=[4, 2, 8, 16]),
+            # the receiver harness of C16 (several instances, limits 1-3, supersession, log-line pauses) under the race
+            # detector: a wedged receiver (Next() not returning, downloaders blocked for good) is this property's business too
+            T("TestC16Receiver", "recv", 160, 16000, shards=16, qshards=4, race=True, gomaxprocs=[4, 2, 8, 16]),
         ],
         "assumptions": [
             "a race detector / schedule-fuzzing search: only interleavings that actually ran are covered; the scenario structure (who does what, how often, with which pauses) is generated, the interleaving is the Go scheduler's, GOMAXPROCS varied over shards",
